@@ -288,13 +288,15 @@ EXTRA = {'C01': 'Each configuration additionally runs with failing appenders (no
         'init_config_with_err_handler across reconfigurations. Scale: 255 .. 70001 declared appenders with '
         'attachments around 2^8 / 2^16. A fifth of the configurations are declared in a configuration document '
         '(RawConfig + appenders_lossy) with unbuildable filter entries around the chain (Fanout.tla, Effective). A '
-        'third sink kind is a log4rs Logger of its own attached as an appender.',
+        'third sink kind is a log4rs Logger of its own attached as an appender. Scale: records with 16 .. 300 '
+        'attachments of failing appenders (one handler call each).',
  'C04': ' Truncate-mode scenarios get a successor appender as well. Every fourth scenario hands over to a successor '
         'appender opened on the same path while the first was alive; one long lifetime (180 records) per batch. '
         'FileAppender.tla has EncodeFail and Close: the traces script encoder failures (also as the first record '
         "after build) and end with the drop of the appender. The traced appender's encoder appends audit lines to a "
         'second file appender from inside its encode call; that file must hold every acknowledged line once, in '
-        'order.',
+        'order. Every other record reaches the writer through write_fmt, one unit per write_str call, with Display '
+        'implementations that give up part-way (the resulting panic is data).',
  'C05': 'The replay materialises every behaviour five times: 10-byte units with DeleteRoller, 400-byte units with a '
         'two-chunk encoder (straddling the 1 KiB BufWriter), 16-byte units with gzip archives and an appender built '
         'from a configuration value, 12-byte units with the index in a directory component of the archive pattern, '
@@ -326,7 +328,7 @@ EXTRA = {'C01': 'Each configuration additionally runs with failing appenders (no
         "template's variable value contains the index placeholder, a sixth template has the index inside a variable "
         'name; windows straddle 2^8 and 2^16. Wipe: the archive directory is removed with everything in it between '
         'two rolls. A ninth template has a $ENV reference in the last component whose value brings directories '
-        'along.',
+        "along. Bystanders include neighbours of the newest archive's name (.tmp, ~, .part).",
  'C08': 'The replay materialises every behaviour five times: 10-byte units with DeleteRoller, 400-byte units with a '
         'two-chunk encoder (straddling the 1 KiB BufWriter), 16-byte units with gzip archives and an appender built '
         'from a configuration value, 12-byte units with the index in a directory component of the archive pattern, '
@@ -344,14 +346,15 @@ EXTRA = {'C01': 'Each configuration additionally runs with failing appenders (no
         "DateZone's logical clock (fractional-second dates are read per encode) run in the same check. The process "
         'is environment state, too (Fork): histories continued in forked children for {P} / {pid}. Sinks accept '
         'prefixes and interrupt calls. The grammar has a literal percent sign in front of text that looks like a '
-        'specifier ({d(%%#z)}).',
+        'specifier ({d(%%#z)}). Every other pattern is encoded with a message whose Display logs through the same '
+        'encoder into another sink.',
  'C10': 'Every length class is instantiated by code points at the edges of its UTF-8 range (first / last lead byte, '
         'first / last continuation byte); fill characters of 1, 2 and 3 bytes; every third case builds the encoder '
         'from a configuration value. Every third case has multi-byte literal text in front of the spec; an earlier '
         'record of the same thread fails half-way before each case. Sink scripts include interrupted calls (accept '
         'value 0). The spec is attached to the formatter, a group, the active conditional group, and - for the empty '
         'text - the inactive one around a non-empty body. A fourth carrier is a group around the text as literal '
-        'characters of the pattern.',
+        'characters of the pattern. Exact cases for minimum, maximum and group widths at 2^16 - 1 .. 2^21 + 1.',
  'C11': 'The curated family includes alignment nested in alignment (re-entrant width writers); every fourth case '
         'encodes into a sink that accepts only a prefix per write call. FieldWidths.tla runs in the same check; the '
         'family has absurd widths on literal-only and nested groups. Placeholders stand for 2- and 3-byte '
@@ -366,7 +369,8 @@ EXTRA = {'C01': 'Each configuration additionally runs with failing appenders (no
         'logger()/loggers(), and the same for references). Every other case renames the appender namespace onto the '
         'strings logger names are made of. Scale: 21 .. 300 loggers with one name declared three times (first '
         'declaration wins, two duplicates reported). Declarations carry a level and an additive flag that depend on '
-        'their position; what a lossy build keeps is compared with what was declared.',
+        'their position; what a lossy build keeps is compared with what was declared. Logger names with a two-byte '
+        'letter; a panic of the builders is reported, not fatal to the replay.',
  'C14': 'Registry.tla (insert / clone / lookup of deserializers per trait and kind, 192k histories) is replayed on '
         'log4rs::config::Deserializers in the same run. Wrong-typed kinds at every level; a zero limit as a bare '
         'integer; ConfigFormat.tla (which reader a file name gets) runs in the same check. The surviving file / '
@@ -374,7 +378,8 @@ EXTRA = {'C01': 'Each configuration additionally runs with failing appenders (no
         'differently in each rendering. Refresh rates below one second, compared on the raw document and on what a '
         "reloader adopts after reading it. A time trigger's two-hour interval is spelled differently in each "
         'rendering (2 HOURS, 2 hourS, 7200, 2 Hours). Reference lists include a name given twice in a row (two '
-        'deliveries per record).',
+        'deliveries per record). A path whose reference expands to the text of another reference (one pass, as for '
+        'the builders).',
  'C15': 'The refresh thread itself is covered impl->spec: scripted lifetimes of the real init_file thread (hook '
         'reloader.sleep) are validated as traces against Reloader.tla (Trace_Reloader.tla): every sleep lasts the '
         'rate of the last applied file. A directed scenario parks a logging thread inside Logger::enabled (hook '
@@ -384,12 +389,14 @@ EXTRA = {'C01': 'Each configuration additionally runs with failing appenders (no
         "Versions of the live documents differ in a child logger's level; the apply event carries log::max_level() "
         'and must equal MaxLevel of the applied version. One reload of the live scenarios takes longer than every '
         'refresh rate in use (45 ms): later edits must still be applied. In the YAML rendering, versions v and v + 2 '
-        'differ in one line break at the end of the file (part of a keep-chomped block scalar).',
+        'differ in one line break at the end of the file (part of a keep-chomped block scalar). Every other child of '
+        'the live scenarios runs with a standard error stream nobody reads.',
  'C16': 'Every other history builds the whole appender (compound policy, trigger kind `time`) from a configuration '
         'value. Random-delay bounds up to u64::MAX. Counts of hours / minutes / seconds around 2^31 / 2^32 seconds '
         'and at the 1000-year maxima (NextTimeBig); lifetimes of 300 arrivals sampled with TLC -simulate. Every DST '
         'zone gets a walk of arrivals through its repeated hour (six intervals, with and without modulation): each '
-        'firing is compared with the scheduled instant read just before.',
+        'firing is compared with the scheduled instant read just before. In a third of the histories the roller '
+        'fails at the first firing; the arrivals that follow fire as the model says.',
  'C17': 'The replay materialises every behaviour five times: 10-byte units with DeleteRoller, 400-byte units with a '
         'two-chunk encoder (straddling the 1 KiB BufWriter), 16-byte units with gzip archives and an appender built '
         'from a configuration value, 12-byte units with the index in a directory component of the archive pattern, '
@@ -399,7 +406,8 @@ EXTRA = {'C01': 'Each configuration additionally runs with failing appenders (no
         'lifetime of 320 / 2400 records per batch, are validated against Rolling.tla (Trace_Rolling.tla). In one '
         'materialisation the configured path is a symbolic link to the file found at start-up. Long behaviours are '
         'sampled with TLC -simulate. With a limit of one unit the configuration leaves min_size out (the documented '
-        'default of one byte).',
+        'default of one byte). Append::flush is called right after every build of the rolling replay (it is no '
+        'action of Rolling.tla).',
  'C18': 'After every append the child writes a marker to the descriptor itself: each record must be on the stream '
         'when its append returns; every row runs with builder- and configuration-built appenders, with and without a '
         'final newline in the pattern. A fourth pattern variant logs a 2 KiB literal behind a newline; after the '
@@ -410,13 +418,15 @@ EXTRA = {'C01': 'Each configuration additionally runs with failing appenders (no
         'setters are given in both orders. The public ConsoleWriter used by four threads without lock() is validated '
         "against the same specification with Locked = FALSE: pieces alternate freely, every call's bytes arrive "
         'whole, escape sequences included. In one pattern variant one append fails with a broken pipe, the stream is '
-        're-pointed at a file, and the same appender must write there.',
+        're-pointed at a file, and the same appender must write there. In one variant a record is appended whose '
+        'message logs through the same appender while it is rendered.',
  'C19': 'A fifth site rolls three times through a window of two with the index before the reference (an expansion '
         "containing '/' puts the index into a directory component). The environment holds a variable with an "
         'ill-formed name. A sixth site uses a relative path (reference at byte 0) in a scratch working directory. A '
         "seventh site puts the roller's index where the input has a digit (window of three; a variable set for one "
         'index only). The environment holds bystander variables whose value or name is not UTF-8. A variable whose '
-        'name ends in a non-ASCII digit (U+0663).',
+        'name ends in a non-ASCII digit (U+0663). A value that starts with a slash and a bare slash token: expected '
+        "locations are the expanded text read as a path ('.', '..', doubled slashes).",
  'C20': 'Junk units include long ones (7..257 letters, a 2-, 3- or 4-byte letter at every place). Junk units with '
         'doubled plural endings and one letter too many. Every interval literal also builds the `time` trigger '
         '(accepted exactly between one unit and 1000 years, never a panic); junk units up to 257 letters. Every '
